@@ -361,7 +361,17 @@ def f50():
     return True
 
 
-for name, fn in (("F36", f36), ("F37", f37), ("F38", f38), ("F39", f39), ("F40", f40), ("F41", f41), ("F42", f42), ("F43", f43), ("F44", f44), ("F45", f45), ("F46", f46), ("F47", f47), ("F48", f48), ("F49", f49), ("F50", f50)):
+def f51():
+    """C03: span / mult / split with a generator of nodes answered for no node at all before the repair"""
+    U = KnotVector([0, 0, 1, 2, 2])
+    if U.span(x for x in [0.5, 1.5]) != (1, 2) or U.mult(map(float, [0, 1, 1.5])) != (2, 1, 0):
+        return "span / mult of a generator"
+    if len(U.split(iter([0.5, 1.5]))) != 3:
+        return "split of an iterator"
+    return True
+
+
+for name, fn in (("F36", f36), ("F37", f37), ("F38", f38), ("F39", f39), ("F40", f40), ("F41", f41), ("F42", f42), ("F43", f43), ("F44", f44), ("F45", f45), ("F46", f46), ("F47", f47), ("F48", f48), ("F49", f49), ("F50", f50), ("F51", f51)):
     if len(sys.argv) > 1 and name not in sys.argv[1:]:
         continue
     t(name, fn)
